@@ -223,13 +223,14 @@ class LinAlg:
         outs = [o for o in outs if o.status != "raise"]
         if not outs:
             raise Unrecognised("every path of %s.__init__ raises for these arguments" % qual, node)
-        first = self._collect(outs[0])
-        for o in outs[1:]:
-            other = self._collect(o)
-            if not (val_eq(first[1], other[1]) and val_eq(first[2], other[2])
-                    and set(first[0]) == set(other[0]) and all(val_eq(first[0][k], other[0][k]) for k in first[0])):
-                raise Unrecognised("construction of %s is path-dependent for these arguments" % qual, node)
-        attrs, osh, ish = first
+        base_n = len(list(st_conds))
+        cols = [(o.conds[base_n:], self._collect(o)) for o in outs]
+        attrs_keys = set()
+        for _, (a, _, _) in cols:
+            attrs_keys |= set(a)
+        attrs = {k: _merge([(cd, a.get(k, NONE)) for cd, (a, _, _) in cols]) for k in sorted(attrs_keys)}
+        osh = _merge([(cd, o_) for cd, (_, o_, _) in cols])
+        ish = _merge([(cd, i_) for cd, (_, _, i_) in cols])
         return LV(self, "prim", cls=cls, args={p: env[p] for p in params}, attrs=attrs, oshape=osh, ishape=ish, node=node)
 
     def _collect(self, st):
@@ -350,6 +351,20 @@ class LinAlg:
             if len(vals) == 1 and isinstance(vals[0], LV):
                 return vals[0]
         return self.compose([self.adjoint(lv), lv])
+
+
+def _merge(items):
+    """value that depends on the constructor path: equal on all paths -> that value, else a canonical
+    `paths` term keyed by the path conditions (deterministic, so equal constructions give equal terms)"""
+    first = items[0][1]
+    if all(val_eq(first, v) for _, v in items[1:]):
+        return first
+    alts = []
+    for conds, v in items:
+        c = T.app("and", *conds) if conds else TRUE
+        alts.append(T.app("path", c, _t(v)))
+    alts.sort(key=lambda a: repr(a.key()))
+    return T.app("paths", *alts)
 
 
 def _subst_val(v, mapping):
